@@ -561,6 +561,26 @@ func runC12(p *Prog, l *Ledger) {
 								if len(ap.Sel) > 0 && strings.Contains(strings.ToLower(ap.Sel[len(ap.Sel)-1]), "backlogsize") {
 									limitOK = true
 								}
+								// a captured value: what this closure was created with (the closure may have been created by
+								// a helper that the variant inlined into the constructor)
+								rv := strip(ret.Results[0], true)
+								if u, isU := rv.(*ssa.UnOp); isU {
+									rv = strip(u.X, true)
+								}
+								for i, fv := range fn.FreeVars {
+									if rv == ssa.Value(fv) && i < len(mc.Bindings) {
+										b := mc.Bindings[i]
+										if al, isAl := b.(*ssa.Alloc); isAl {
+											if sv := singleStore(al); sv != nil {
+												b = sv
+											}
+										}
+										bp := AccessPath(strip(b, true))
+										if len(bp.Sel) > 0 && strings.Contains(strings.ToLower(bp.Sel[len(bp.Sel)-1]), "backlogsize") {
+											limitOK = true
+										}
+									}
+								}
 							}
 						})
 					}
